@@ -61,3 +61,54 @@ Definition example_run_ok : bool :=
   end.
 Lemma ob_example_run : example_run_ok = true.
 Proof. vm_compute. reflexivity. Qed.
+
+(* ---- the forced close: T03_half_close does not hold beyond the grace period ---- *)
+Definition grace_cut_trace : list label :=
+  [LReply; LShutdown CT; LReadEOF CT; LCloseWrite CT; LWrite TC [1]; LTick grace_ns; LClose Down].
+Definition grace_cut_ok : bool :=
+  match run (tables_shape grace_ns) (init [] [] []) grace_cut_trace with
+  | Some s => d_eof (s_tc s) && negb (d_wcl (s_tc s)) && is_nil (d_rcv (s_tc s)) && s_forced s
+              && str_eqb (d_all (s_tc s)) [1]
+  | None => false
+  end.
+Lemma ob_grace_cut_witness : grace_cut_ok = true.
+Proof. vm_compute. reflexivity. Qed.
+
+(* ---- each shape hypothesis is needed: the same LTS with one shape flipped breaks the property ---- *)
+Definition good_shape : shape := mkShape 4 10 true false true true true true.
+Definition run_from (sh : shape) (e : list N) (tr : list label) : option state := run sh (init e [] []) tr.
+
+(* without drainBuffer between the reply and the copiers the early bytes never arrive *)
+Lemma ob_shape_no_drain_loses_early :
+  match run_from (mkShape 4 10 false false true true true true) [7;8]
+          [LReply; LShutdown CT; LReadEOF CT; LCloseWrite CT; LShutdown TC; LReadEOF TC; LCloseWrite TC; LClose Up; LClose Down] with
+  | Some s => is_nil (d_rcv (s_ct s)) && d_eof (s_ct s) && str_eqb (d_all (s_ct s)) [7;8]
+  | None => false end = true.
+Proof. vm_compute. reflexivity. Qed.
+(* peeking in drainBuffer while the upstream copier reads the same bufio reader duplicates them *)
+Lemma ob_shape_reread_duplicates_early :
+  match run_from (mkShape 4 10 true true true true true true) [7;8]
+          [LReply; LDrain [7;8]; LRead CT [7;8]; LDeliver CT [7;8]] with
+  | Some s => str_eqb (d_rcv (s_ct s)) [7;8;7;8]
+  | None => false end = true.
+Proof. vm_compute. reflexivity. Qed.
+(* without CloseWrite after the copy the sink never sees end-of-stream while the tunnel is open *)
+Lemma ob_shape_no_closewrite_no_eof :
+  match run_from (mkShape 4 10 true false false true true true) []
+          [LReply; LShutdown CT; LReadEOF CT; LCloseWrite CT] with
+  | Some s => negb (d_eof (s_ct s)) && cop_eqb (d_cop (s_ct s)) Done
+  | None => false end = true.
+Proof. vm_compute. reflexivity. Qed.
+(* returning from bicopy after the first copier cuts the other direction at once *)
+Lemma ob_shape_wait_first_cuts_other :
+  match run_from (mkShape 4 10 true false true false true true) []
+          [LReply; LWrite TC [5]; LShutdown CT; LReadEOF CT; LCloseWrite CT; LClose Down] with
+  | Some s => d_eof (s_tc s) && is_nil (d_rcv (s_tc s)) && negb (d_wcl (s_tc s))
+  | None => false end = true.
+Proof. vm_compute. reflexivity. Qed.
+(* the very same traces are refused, or harmless, under the shape the theorems assume *)
+Lemma ob_good_shape_refuses :
+  match run_from good_shape [7;8] [LReply; LShutdown CT; LReadEOF CT] with None => true | Some _ => false end
+  && match run_from good_shape [] [LReply; LWrite TC [5]; LShutdown CT; LReadEOF CT; LCloseWrite CT; LClose Down] with
+     None => true | Some _ => false end = true.
+Proof. vm_compute. reflexivity. Qed.
